@@ -411,7 +411,7 @@ def obs_job_graph(jg, labels: Labels):
             "conc": pol._concurrency,
             "start": pol._start.time,
         },
-        "variance": list(jg._deadline_variance),
+        "variance": None if jg._deadline_variance is None else list(jg._deadline_variance),  # None: the loader dropped it
         "jobs": jobs,
         "T": T,
         "remaining": jg._remaining_task_graphs,
